@@ -32,7 +32,9 @@ pub fn run_c10(c: &BytesCase) -> Result<(), String> { let mut id = [0u8; 16]; id
 pub fn fam_c14(n: usize, seed: u64) -> Vec<BytesCase> {
     let mut r = Lcg(seed);
     (0..n).map(|_| {
-        let little = r.next(2) == 0; let sel = r.next(8) as u8; let align = [0usize, 1, 2, 4, 8, 16, 3, 4][sel as usize].max(1);
+        let little = r.next(2) == 0; let sel0 = r.next(8) as u8; let align = [0usize, 1, 2, 4, 8, 16, 3, 4][sel0 as usize].max(1);
+        // one case in eight is parsed with an absurd alignment (selectors 8..12 of check_c14) although laid out for `align`
+        let sel = if r.next(8) == 0 { 8 + r.next(4) as u8 } else { sel0 };
         let mut buf = Vec::new();
         for _ in 0..1 + r.next(3) {
             let name: &[u8] = [&b"GNU\0"[..], b"GNU\0", b"", b"X\0", b"GNUX\0", b"CORE\0\0\0\0", b"GN\0"][r.next(7) as usize];
